@@ -228,14 +228,44 @@ func init() {
 		}
 		rng := rand.New(rand.NewSource(seed))
 		var alone, obs, snaps []string
-		// the result is recorded, then the returned bytes are overwritten: they belong to the caller,
-		// and a later call must not see what the caller did with them
+		// the result is recorded; then either the caller overwrites the returned bytes (they are the
+		// caller's: a later call must not see what was done with them) or keeps them, in which case
+		// nothing the library does later -- on this object or on any other -- may change them
+		type heldT struct{ r, c []byte }
+		var held []heldT
+		var heldMu sync.Mutex
 		pair := func(id int, r []byte) string {
 			s := fmt.Sprintf("%d:%s", id, hx(sum(r)))
+			if len(r) > 0 && (len(r)+id)%2 == 0 {
+				heldMu.Lock()
+				if len(held) < 64 {
+					held = append(held, heldT{r, append([]byte{}, r...)})
+				}
+				heldMu.Unlock()
+				return s
+			}
 			for i := range r {
 				r[i] = 0xAA
 			}
 			return s
+		}
+		heldOK := func() string {
+			for _, h := range held {
+				if !bytes.Equal(h.r, h.c) {
+					return "99:" + hx(sum([]byte("a result the caller kept was changed later")))
+				}
+			}
+			return "99:" + hx(sum([]byte("kept results unchanged")))
+		}
+		// operations on OTHER objects of the same kind, rebuilt (re-parsed) every time, between the calls
+		noise := func() {
+			if len(a) <= 7 || a[7] == "" {
+				return
+			}
+			if nops, _, _, err := pureObject(a[0], unhx(a[7]), variant&3); err == nil && len(nops) > 0 {
+				nops[rng.Intn(len(nops))].run()
+				nops[rng.Intn(len(nops))].run()
+			}
 		}
 		snaps = append(snaps, hx(sum(snap())))
 		for j, o := range ops {
@@ -249,11 +279,20 @@ func init() {
 			alone = append(alone, pair(o.id, o.run()))
 			snaps = append(snaps, hx(sum(snap())))
 		}
+		alone = append(alone, "99:"+hx(sum([]byte("kept results unchanged"))))
 		for i := 0; i < nseq; i++ {
+			if rng.Intn(3) == 0 {
+				noise()
+			}
 			o := ops[rng.Intn(len(ops))]
 			obs = append(obs, pair(o.id, o.run()))
 			snaps = append(snaps, hx(sum(snap())))
+			if i%4 == 3 {
+				obs = append(obs, heldOK())
+			}
 		}
+		noise()
+		obs = append(obs, heldOK())
 		if g > 1 {
 			var wg sync.WaitGroup
 			res := make([][]string, g)
@@ -277,12 +316,13 @@ func init() {
 			for _, r := range res {
 				obs = append(obs, r...)
 			}
+			obs = append(obs, heldOK())
 			snaps = append(snaps, hx(sum(snap())))
 		}
 		return []string{"ok", strings.Join(alone, ","), strings.Join(obs, ","), strings.Join(snaps, ",")}
 	}
 	checkers["C19"] = checker{
-		rule: "objects: parsed synthetic well-formed images (unsigned, carrying a table, signed in memory 0..2 times, serialised and re-parsed) and the sbsign fixture; decoded signature databases (grammar-generated and repository fixtures); signed-update values and descriptors from SignEFIVariable; parsed PKCS#7 objects. Operations: Bytes, Open+ReadAll, Hash(SHA-256/SHA-1), Signatures, Verify (signer, second signer, stranger, a certificate with the signer's issuer and serial but another key), the hash pre-image; database Bytes, Marshal, SigDataExists/Exists/BytesExists (present and absent), list Bytes/Exists; value Marshal, Bytes, descriptor Marshal/Bytes/Verify. Per object: each operation once alone (on a freshly parsed object of the same content where the object can be rebuilt deterministically), every returned byte slice overwritten by the caller after it was recorded, then a random sequence on one goroutine with a state snapshot (verif hook: every stored reader's cursor, the certificate buffer's content and length, sizes; the database's lists; the value's buffer length and read offset) after every call, then 2..16 goroutines running random sequences concurrently in a -race build of the worker, snapshot after the join; R_C19 (extracted check_pure) requires every result to equal the result of the same call alone and every snapshot to equal the first; any race-detector report is a violation; non-trivial = all, distinct by (object, seed)",
+		rule: "objects: parsed synthetic well-formed images (unsigned, carrying a table, signed in memory 0..2 times, serialised and re-parsed) and the sbsign fixture; decoded signature databases (grammar-generated and repository fixtures); signed-update values and descriptors from SignEFIVariable; parsed PKCS#7 objects. Operations: Bytes, Open+ReadAll, Hash(SHA-256/SHA-1), Signatures, Verify (signer, second signer, stranger, a certificate with the signer's issuer and serial but another key), the hash pre-image; database Bytes, Marshal, SigDataExists/Exists/BytesExists (present and absent), list Bytes/Exists; value Marshal, Bytes, descriptor Marshal/Bytes/Verify. Per object: each operation once alone (on a freshly parsed object of the same content where the object can be rebuilt deterministically), every returned byte slice either overwritten by the caller after it was recorded or kept and re-examined later (nothing may change it), then a random sequence, interleaved with operations on other freshly built objects of the same kind, on one goroutine with a state snapshot (verif hook: every stored reader's cursor, the certificate buffer's content and length, sizes; the database's lists; the value's buffer length and read offset) after every call, then 2..16 goroutines running random sequences concurrently in a -race build of the worker, snapshot after the join; R_C19 (extracted check_pure) requires every result to equal the result of the same call alone and every snapshot to equal the first; any race-detector report is a violation; non-trivial = all, distinct by (object, seed)",
 		run:  runC19,
 	}
 }
@@ -334,6 +374,14 @@ func runC19(c *Ctx) {
 		s, _ := genWfStream(rng, 4, 80)
 		objs = append(objs, obj{"db", s, 0, "db/generated"})
 	}
+	// a database with a long unsorted list (hundreds of entries)
+	{
+		l := signature.NewSignatureList(signature.CERT_SHA256_GUID)
+		for k := 0; k < 300; k++ {
+			l.AppendBytes(util.EFIGUID{Data1: uint32(rng.Intn(5))}, randBytes(rng, 32))
+		}
+		objs = append(objs, obj{"db", l.Bytes(), 0, "db/long-list"})
+	}
 	fx := sigFixtures()
 	names := make([]string, 0, len(fx))
 	for n := range fx {
@@ -357,7 +405,15 @@ func runC19(c *Ctx) {
 	for i, o := range objs {
 		g := []int{2, 3, 4, 8, 16}[i%5]
 		seed := rng.Int63()
-		args := []string{o.kind, hx(o.data), fmt.Sprint(o.variant), fmt.Sprint(seed), fmt.Sprint(nseq), "1", "0"}
+		// another object of the same kind, for the operations in between
+		noiseData := ""
+		for k := 1; k < len(objs); k++ {
+			if n := objs[(i+k)%len(objs)]; n.kind == o.kind && !bytes.Equal(n.data, o.data) && len(n.data) < 20000 {
+				noiseData = hx(n.data)
+				break
+			}
+		}
+		args := []string{o.kind, hx(o.data), fmt.Sprint(o.variant), fmt.Sprint(seed), fmt.Sprint(nseq), "1", "0", noiseData}
 		run := func(w *Worker, mode string, args []string) {
 			var ob Obs
 			if w == nil {
@@ -383,7 +439,7 @@ func runC19(c *Ctx) {
 		run(nil, "sequential", args)
 		if wr != nil {
 			cargs := append([]string{}, args...)
-			cargs[4], cargs[5], cargs[6] = "4", fmt.Sprint(g), fmt.Sprint(rounds)
+			cargs[4], cargs[5], cargs[6] = "6", fmt.Sprint(g), fmt.Sprint(rounds)
 			run(wr, fmt.Sprintf("concurrent-%d", g), cargs)
 		}
 	}
